@@ -208,6 +208,41 @@ def run(chk):
             chk.note(f'gen_cent schedule replay not available: {type(e).__name__}: {str(e)[:200]}')
     chk.part('schedule_replay', schedules=nsch)
     chk.add_cases(nrun + nfc + nsch, nontrivial=nontriv + nfc, traces=nrun + nfc + nsch)
+    # ---- the parallel host lookup of particles (staging): identical to the serial lookup for every thread count, for particle host ids
+    #      in any order (slab files are sorted internally only) and ids between / beyond the halo ids
+    try:
+        import numba
+        from abacusnbody.hod.abacus_hod import _searchsorted_parallel
+        nss = 0
+        nt0 = numba.get_num_threads()
+        for rep in range(40 if chk.quick else 400):
+            H = int(rng.choice([0, 1, 2, 7, 50, 333]))
+            hid = np.sort(rng.choice(np.arange(5 * H + 5), H, replace=False)).astype(np.int64)
+            n = int(rng.choice([0, 1, 2, 5, 17, 100, 1001, 6000]))
+            kind = rep % 4
+            phid = rng.choice(hid, n) if (H and kind != 3) else rng.integers(-3, 5 * H + 8, n)
+            if kind == 0:
+                phid = np.sort(phid)
+            elif kind == 1 and n:                                   # sorted within each of three slabs only
+                cuts = np.sort(rng.integers(0, n + 1, 2))
+                phid = np.concatenate([np.sort(x) for x in np.split(phid, cuts)])
+            phid = np.asarray(phid, dtype=np.int64)
+            want = np.searchsorted(hid, phid)
+            for t in ((1, 2, 3, 5, 7, 16) if rep % 5 == 0 else (1 + rep % 16,)):
+                numba.set_num_threads(min(t, nt0))
+                got = _searchsorted_parallel(hid, phid)
+                nss += 1
+                if got.dtype != np.int64 or not np.array_equal(got, want):
+                    bad = int(np.argmax(got != want)) if len(got) == len(want) else -1
+                    chk.violation(f'searchsorted-threads-{"sorted" if kind == 0 else "unsorted"}', f'_searchsorted_parallel with {t} threads: {len(hid)} halos, {n} particle host ids '
+                                  f'({["sorted", "sorted per slab", "random order", "ids between the halo ids"][kind]}): result differs from the serial lookup (first at particle {bad})',
+                                  dict(kind='searchsorted', hid=hid.tolist(), phid=phid.tolist()[:200], t=t))
+                    break
+        numba.set_num_threads(nt0)
+        chk.part('searchsorted_parallel', runs=nss)
+        chk.add_cases(nss, nontrivial=nss, traces=nss)
+    except Exception as e:  # noqa
+        chk.violation(f'searchsorted-raises-{type(e).__name__}', f'_searchsorted_parallel: {type(e).__name__}: {e}', {})
     # ---- extended coverage (beyond C10): the AbacusHOD object across many calls — spec/HodSession.tla
     try:
         import hodsession
